@@ -890,6 +890,54 @@ func (w *codecWorld) runLinkKey(h int, r *rand.Rand) {
 		}
 	}
 	fmt.Fprintf(w.out, "G %s %d %d %d %s %d\n", joinRes, lb.Len(), na+nb, lb.Heads().Len(), strings.Join(lens, " "), linked)
+	// merges across codec configurations (a plain log offered to a keyed one, a keyed log offered to a log
+	// with another key): refused or not, the SOURCE log's entries must be left exactly as they were, and
+	// the source must still be mergeable by a peer of its own configuration
+	idP := w.idents[2%len(w.idents)]
+	lp, _ := ipfslog.NewLog(api, idP, &ipfslog.LogOptions{ID: "G"})
+	lq, _ := ipfslog.NewLog(api, idP, &ipfslog.LogOptions{ID: "G", IO: io2})
+	for i := 0; i < 3+r.Intn(3); i++ {
+		_, _ = lp.Append(w.ctx, randBytes(r, 4), &iface.AppendOptions{PointerCount: 1 + r.Intn(3)})
+		_, _ = lq.Append(w.ctx, randBytes(r, 4), &iface.AppendOptions{PointerCount: 1 + r.Intn(3)})
+	}
+	finger := func(l *ipfslog.IPFSLog) string {
+		var b strings.Builder
+		for _, e := range l.Values().Slice() {
+			ad := e.GetAdditionalData()
+			keys := make([]string, 0, len(ad))
+			for k := range ad {
+				keys = append(keys, k+"="+ad[k])
+			}
+			sort.Strings(keys)
+			fmt.Fprintf(&b, "%s|%x|%x|%x|%d|%d|%v;", e.GetHash(), e.GetPayload(), e.GetSig(), e.GetKey(), len(e.GetNext()), len(e.GetRefs()), keys)
+		}
+		return b.String()
+	}
+	for _, pr := range []struct {
+		name     string
+		dst, src *ipfslog.IPFSLog
+		peerIO   iface.IO
+	}{{"keyed<-plain", la, lp, nil}, {"keyed<-otherkey", la, lq, io2}, {"plain<-keyed", lp, lb, io1}} {
+		before := finger(pr.src)
+		jr := "ok"
+		func() {
+			defer func() {
+				if rec := recover(); rec != nil {
+					jr = "PANIC"
+				}
+			}()
+			if _, err := pr.dst.Join(pr.src, -1); err != nil {
+				jr = "err"
+			}
+		}()
+		same := finger(pr.src) == before
+		peerRes := "ok"
+		peer, _ := ipfslog.NewLog(api, w.idents[0], &ipfslog.LogOptions{ID: "G", IO: pr.peerIO})
+		if _, err := peer.Join(pr.src, -1); err != nil {
+			peerRes = "err"
+		}
+		fmt.Fprintf(w.out, "XJ %s %s %v %s\n", pr.name, jr, same, peerRes)
+	}
 }
 
 // ---------------------------------------------------------------- (c) malformed
